@@ -251,7 +251,7 @@ pub fn exh_summary(spec: &BookSpec) -> Vec<Value> {
         .map(|c| {
             json!({
                 "depth": c.depth, "advances": c.advances, "modifies": c.modifies, "toggle": c.toggle,
-                "redundant_place": c.redundant_place, "prices": c.prices, "vols": c.vols, "tick": c.tick,
+                "redundant_place": c.redundant_place, "creates_unplaced": c.creates, "t0": c.t0, "prices": c.prices, "vols": c.vols, "tick": c.tick,
                 "levels": c.levels, "sequences": c.count_sequences().to_string(),
             })
         })
